@@ -43,6 +43,11 @@ fn regs_same_except(a: &[u64; 11], b: &[u64; 11], skip_from: usize, skip_to: usi
 
 pub fn run_arm(opc: u8, fuel: usize) { run_arm_dst(opc, fuel, None) }
 
+/// Only the clauses about the two compilation passes (sizes, fetches, pc_locs, compile errors, panics), with the
+/// REAL encoders; the meaning of the emitted bytes is then proved modularly (harnesses_abs.rs).
+static mut EMIT_ONLY: bool = false;
+pub fn run_arm_emit(opc: u8) { unsafe { EMIT_ONLY = true; } run_arm_fixed(opc, 0, None, None) }
+
 /// `dst_fixed`: the heavy mul/div/mod arms are proved once per destination register (the shape of the
 /// emitted sequence - pushes/pops around rax/rdx - depends on it); together the harnesses cover all of them
 pub fn run_arm_dst(opc: u8, fuel: usize, dst_fixed: Option<u8>) { run_arm_fixed(opc, fuel, dst_fixed, None) }
@@ -111,6 +116,7 @@ pub fn run_arm_fixed(opc: u8, fuel: usize, dst_fixed: Option<u8>, src_fixed: Opt
         return;
     }
 
+    if unsafe { EMIT_ONLY } { return; }
     // ---- meaning of the emitted bytes ----
     let mut st = any_xstate();
     let pre_x = st.r;
